@@ -109,7 +109,9 @@ func (p *resultsPrinter) PrintResults(matchingNodes *list.List) error {
 			return errorWriting
 		}
 
-		commentsStartWithSepExp := regexp.MustCompile(`^\$yqDocSeparator\$`)
+		// the document brings its own separator along when one was written in front of it - directly, or after
+		// comments (`# c` / `---` / `b: 2`): printing another one would add an empty document
+		commentsStartWithSepExp := regexp.MustCompile(`(?m)^\$yqDocSeparator\$$`)
 		commentStartsWithSeparator := commentsStartWithSepExp.MatchString(mappedDoc.LeadingContent)
 
 		if (p.previousDocIndex != mappedDoc.GetDocument() || p.previousFileIndex != mappedDoc.GetFileIndex()) && !commentStartsWithSeparator {
